@@ -27,6 +27,8 @@ _code_matches = []
 
 
 def find_core_tokens(string, root):
+    # drop code span matches left over from a parse that was aborted by an exception
+    del _code_matches[:]
     delimiters = []
     matches = []
     escaped = False
